@@ -70,7 +70,7 @@ class Scheduler:
                         # initial barrier: every worker that has work is parked on its first pair
                         if len(self.parked) >= self.expect:
                             started = True
-                        elif time.time() - t0 > 2.0 and self.parked:
+                        elif time.time() - t0 > 15.0 and self.parked:
                             started = True
                             self.fell_back = True
                         else:
@@ -135,7 +135,7 @@ def first_scalar(f):
     return v
 
 
-def run_schedule(ub, vb, nthreads, choices, A0, param, timeout=20.0):
+def run_schedule(ub, vb, nthreads, choices, A0, param, timeout=180.0):
     """one threaded assembly under the given choice vector -> (matrix, scheduler) ; raises HarnessError on hang"""
     from skfem import BilinearForm
     uid = {id(ub.basis[j][0]): j for j in range(ub.Nbfun)}
@@ -362,7 +362,7 @@ PROP = Prop(
           'by worker"'),
     assumptions=['interleavings are controlled at kernel-invocation granularity; races inside one NumPy call are out of reach (GIL)',
                  'workers are identified by thread objects that appear after the call starts',
-                 'the initial barrier expects min(nthreads, pairs) workers with work and falls back after 2 s'],
+                 'the initial barrier expects min(nthreads, pairs) workers with work and falls back after 15 s'],
     subs=[Sub('schedules_exhaustive', body_exhaustive, cases=exhaustive_cases, max_shards=16),
           Sub('schedules_random', body_random, strategy=case_random, quick=400, thorough=8000),
           Sub('free_running', body_free, cases=free_cases, max_shards=16)],
